@@ -271,6 +271,10 @@ func semFeatures(k int, h []rng) string {
 		set["ranges=1"] = true
 	case n == 2:
 		set["ranges=2"] = true
+	case n >= 256:
+		// a witness that cannot be reduced below 256 ranges: its length is the input class, the
+		// incidental content of a header that long is not
+		return "ranges=256+"
 	default:
 		set["ranges=3+"] = true
 	}
